@@ -1,6 +1,6 @@
 (* C13 -- NAND: each partition is decrypted with the keyslot and counter its type dictates. *)
 From Pyctr Require Import Base.Prelude Base.ListExt Base.PyInt Base.PySlice Env.PyFile Env.FileIface Spec.StreamCipher Model.CtrIO Model.Nand
-  Proofs.CtrProofs Proofs.NandProofs.
+  Model.NandWrite Proofs.CtrProofs Proofs.NandProofs Proofs.NandWriteProofs.
 
 (* which base file, keyslot and mode a (fs type, crypt type) pair selects *)
 Theorem C13_typing :
@@ -37,6 +37,52 @@ Theorem C13_partition_views_twl : forall E S (U : fileops S) (inv : S -> Prop) (
     len r = read_count size sk n.
 Proof. intros. eapply twl_partition_read; eauto. Qed.
 Print Assumptions C13_partition_views_twl.
+
+(* data written through a view is re-encrypted in place: the view stores min(len d, size - pos) bytes, the decrypted image changes
+   exactly there (inside the partition), the raw image changes nowhere else, and the partition reads back as old content with
+   the data laid over it -- for any lawful underlying file, so also after re-opening (the file is all the state there is) *)
+Theorem C13_write_back_3ds : forall E S (U : fileops S) (inv : S -> Prop) (content : S -> list Z) (pos : S -> Z), lawful U inv content pos ->
+  (forall s o, inv s -> 0 <= o -> exists s', f_seek U s o 0 = Ok (o, s')) ->
+  forall extends : bool, (forall s d, inv s -> exists k s', f_write U s d = Ok (k, s') /\ inv s' /\
+      k = (if extends then len d else Z.min (len d) (Z.max 0 (len (content s) - pos s))) /\
+      content s' = overlay 0 (content s) (pos s) (take d k) /\ pos s' = pos s + k) ->
+  forall key counter off size sk io d,
+  io_inv inv content pos extends key counter io -> 0 <= off -> 0 <= sk <= size -> off + size <= len (content (cu io)) ->
+  exists k io', sub_write (ctr_ops E U key counter) off size sk io d = Ok (k, io') /\
+    io_inv inv content pos extends key counter io' /\
+    k = Z.min (len d) (size - sk) /\
+    stream_dec E false key counter (content (cu io')) = overlay 0 (stream_dec E false key counter (content (cu io))) (off + sk) (take d k) /\
+    (exists ct, len ct = k /\ content (cu io') = overlay 0 (content (cu io)) (off + sk) ct).
+Proof. intros. eapply ctr_partition_write; eauto. Qed.
+Print Assumptions C13_write_back_3ds.
+
+Theorem C13_write_back_twl : forall E S (U : fileops S) (inv : S -> Prop) (content : S -> list Z) (pos : S -> Z), lawful U inv content pos ->
+  (forall s o, inv s -> 0 <= o -> exists s', f_seek U s o 0 = Ok (o, s')) ->
+  forall extends : bool, (forall s d, inv s -> exists k s', f_write U s d = Ok (k, s') /\ inv s' /\
+      k = (if extends then len d else Z.min (len d) (Z.max 0 (len (content s) - pos s))) /\
+      content s' = overlay 0 (content s) (pos s) (take d k) /\ pos s' = pos s + k) ->
+  forall key counter off size sk io d,
+  inv (cu io) -> 0 <= off -> 0 <= sk <= size -> off + size <= len (content (cu io)) ->
+  exists k io', sub_write (twl_ops E U key counter) off size sk io d = Ok (k, io') /\
+    inv (cu io') /\
+    k = Z.min (len d) (size - sk) /\
+    stream_dec E true key counter (content (cu io')) = overlay 0 (stream_dec E true key counter (content (cu io))) (off + sk) (take d k) /\
+    (exists ct, len ct = k /\ content (cu io') = overlay 0 (content (cu io)) (off + sk) ct).
+Proof. intros. eapply twl_partition_write; eauto. Qed.
+Print Assumptions C13_write_back_twl.
+
+Theorem C13_read_back : forall E S (U : fileops S) (inv : S -> Prop) (content : S -> list Z) (pos : S -> Z), lawful U inv content pos ->
+  (forall s o, inv s -> 0 <= o -> exists s', f_seek U s o 0 = Ok (o, s')) ->
+  forall extends : bool, (forall s d, inv s -> exists k s', f_write U s d = Ok (k, s') /\ inv s' /\
+      k = (if extends then len d else Z.min (len d) (Z.max 0 (len (content s) - pos s))) /\
+      content s' = overlay 0 (content s) (pos s) (take d k) /\ pos s' = pos s + k) ->
+  forall key counter off size sk io d,
+  io_inv inv content pos extends key counter io -> 0 <= off -> 0 <= sk <= size -> off + size <= len (content (cu io)) ->
+  exists k io', sub_write (ctr_ops E U key counter) off size sk io d = Ok (k, io') /\
+    slice (stream_dec E false key counter (content (cu io'))) off size
+    = overlay 0 (slice (stream_dec E false key counter (content (cu io))) off size) sk (take d k).
+Proof. intros. eapply ctr_partition_readback; eauto. Qed.
+Print Assumptions C13_read_back.
 
 (* counter inference: with D the inverse of E, the standard MBR blocks give back exactly the counter the image was encrypted with *)
 Theorem C13_infer_ctr : forall E D, (forall k b, D k (E k b) = b) -> (forall k b, length (E k b) = 16%nat) ->
